@@ -39,22 +39,23 @@ TECHNIQUE = (
 LEVEL_TEXT = (
     "Lean theorems: a KKT point of the documented problem is a fixed point of the documented iteration of ADMM (N constraints, "
     "any alpha), LinearizedADMM, ProximalADMM (general B, c and defaults), NonLinearPADMM, PDHG (linear / non-linear C), PGM, "
-    "AcceleratedPGM; KKT points minimise f + g∘C; PGM with L >= Lipschitz constant: distance to any minimiser and objective "
-    "non-increasing, linear rate and convergence from every start for strongly convex f; FISTA t_k >= t_0 + k/2 and "
-    "F(x_k) - F(x*) <= 2L|x_0 - x*|^2/(k+1)^2; ADMM, N constraints, relaxation alpha: W+ + a(2-a)Σρ|Cx+ - z|^2 + 2am|x+ - x*|^2 <= W "
-    "(and Boyd's V for alpha = 1), hence for 0 < alpha < 2 from EVERY start norm_primal_residual() -> 0, |z+ - z| -> 0, and for "
-    "strongly convex f minimizer() -> x*; PDHG (alpha = 1, linear C, tau sigma |C|^2 < 1): Fejer monotone in the M-metric from "
-    "every state, residual accessors -> 0; ProximalADMM (mu >= |A|^2, nu >= |B|^2) and LinearizedADMM (mu |C|^2 <= nu): "
-    "Lyapunov function non-increasing after the first step from every start, residual accessors -> 0. Tie: fixed-point "
-    "residuals at manufactured exact optima and every one of these one-step inequalities along trajectories of the real classes."
+    "AcceleratedPGM; KKT points minimise f + g∘C. For strongly convex f the iterates (minimizer()) converge to the unique "
+    "minimiser from EVERY start for PGM (linear rate), AcceleratedPGM (O(1/k^2) rate), ADMM (N constraints, relaxation alpha in "
+    "(0,2], any x-solver meeting the stationarity contract), LinearizedADMM (mu|C|^2 <= nu), ProximalADMM (mu >= |A|^2, nu >= "
+    "|B|^2), PDHG (alpha = 1, linear C, tau sigma |C|^2 < 1). Monotone quantities: PGM distance / objective (base and arbitrary "
+    "hook with L >= Lipschitz); FISTA t_k, potential and F(x_k) - F* <= 2L|x_0-x*|^2/(k+1)^2; ADMM W+ + a(2-a)Σρ|Cx+-z|^2 + "
+    "2am|x+-x*|^2 <= W (and Boyd's V for alpha = 1); PDHG Fejer inequality in the M-metric; Lyapunov functions of proximal and "
+    "linearized ADMM; all residual accessors -> 0. Merely convex problems in finite dimension: PDHG and LinearizedADMM "
+    "iterates converge to a saddle / KKT point (Opial). Tie: fixed-point residuals at manufactured exact optima and every one "
+    "of these one-step inequalities along trajectories of the real classes."
 )
 LEVEL_NOTE = (
-    "Outside the theorems (numerical exercise only): convergence of the ITERATES of ADMM for merely convex f, of "
-    "LinearizedADMM / ProximalADMM / PDHG / AcceleratedPGM (residuals / objective are proved to converge, the iterates only "
-    "stay bounded); PDHG with alpha != 1; NonLinearPADMM and non-linear PDHG beyond fixed points (non-convex); adaptive "
-    "step-size policies (C16); inexact sub-problem solvers (C10/C14). Trusted: Lean kernel + Mathlib; real-number "
-    "idealisation; prox maps / operators enter through contracts (IsProx = argmin for convex functionals; adjoint identity; "
-    "operator-norm bounds as hypotheses); step maps tied to the code by C11."
+    "Outside the theorems (numerical exercise only): convergence of the ITERATES of ADMM and ProximalADMM for merely convex f "
+    "(Lyapunov monotone, bounded, residuals -> 0 are proved), of AcceleratedPGM for merely convex f (objective gap is proved); "
+    "PDHG with alpha != 1; NonLinearPADMM and non-linear PDHG beyond fixed points (non-convex); adaptive step-size policies "
+    "(C16); inexact sub-problem solvers (C10/C14). Trusted: Lean kernel + Mathlib; real-number idealisation; prox maps / "
+    "operators enter through contracts (IsProx = argmin for convex functionals; adjoint identity; operator-norm bounds as "
+    "hypotheses); step maps tied to the code by C11."
 )
 PROP_MODULES = ["Scico.Props.C03"]
 EXTRA_TARGETS = ["Drv.Steps"]
@@ -79,8 +80,8 @@ RULE = (
 ASSUMPTIONS = [
     "IsProx contract of the proximal maps (C02), adjoint identity of the operators (C01), exactness of the x-update solver (C10)",
     "L0 >= Lipschitz constant is computed by numpy (largest eigenvalue) with a dyadic safety margin",
-    "convergence of the iterates of LinearizedADMM / ProximalADMM / PDHG / FISTA (and ADMM for merely convex f) is exercised "
-    "numerically only (fixed iteration budget); their residuals / objective gaps are proved to converge",
+    "the manufactured problems have a strongly convex f, so convergence of the iterates is a theorem for every convex class; "
+    "the iteration budget of the numerical convergence criterion is a heuristic (extended 20x before a case is reported)",
 ]
 
 TOL = 1e-9
@@ -443,9 +444,19 @@ def trajectory_case(ctx, recipe, kkt, xs, rng, K, check_conv=True):
         if alg == "apgm":
             qq = 1.0 - recipe["_m"] / float(recipe["L0"])
             target = max(0.05, 2.0 * qq ** (K / 2.0)) * d0 + 1e-7
+        # no rate is claimed for these classes (only convergence is a theorem): slowly converging instances (large rho,
+        # ill-conditioned C) get up to 20x the budget before the case is reported
+        extra = 0
+        while dists[-1] > target and d0 > 0 and extra < 19 * K:
+            for _ in range(K):
+                s.step()
+            extra += K
+            dists.append(_dist(np.asarray(G.flat(s.x, False)), xs))
+        if extra:
+            ctx.count("convergence:extended-budget")
         if dists[-1] > target and d0 > 0:
-            bad = {"quantity": "distance to the manufactured minimiser after %d steps" % K, "start": d0, "end": dists[-1],
-                   "required": target}
+            bad = {"quantity": "distance to the manufactured minimiser after %d steps" % (K + extra), "start": d0,
+                   "end": dists[-1], "required": target}
         ctx.count(f"convergence:{alg}")
     if not common.allclose(G.flat(s.minimizer(), False), G.flat(s.x, False), rtol=0.0):
         bad = {"quantity": "minimizer() is x"}
@@ -472,11 +483,14 @@ def lyapunov_monitors(ctx, recipe, kkt, xs, states, fobjs, b):
     n = len(xs)
     tol = lambda v: 1e-8 * (1.0 + abs(v))  # noqa: E731
     A_ = lambda k: np.asarray(k, dtype=np.float64)  # noqa: E731
+    # strong-monotonicity modulus of grad f (f = s ||x - y0||^2 : 2 s); 0 when f is not of that form (plain convexity)
+    fr = recipe.get("f") or {}
+    m_f = 2.0 * float(fr["s"]) if fr.get("k") == "sqloss" and fr.get("A") is None and fr.get("W") is None else 0.0
     if alg == "admm" and 0.0 < recipe["alpha"] < 2.0:
         al = float(recipe["alpha"])
         Ms = [np.asarray(G.op_dense(c, [n])[0], dtype=np.float64) for c in recipe["C"]]
         rho = [float(r) for r in recipe["rho"]]
-        m = 2.0 * float(recipe["f"]["s"])  # f = s ||x - y0||^2 : its gradient is strongly monotone with modulus 2 s
+        m = m_f
         zs = [A_(z) for z in kkt["z"]]
         us = [A_(u) for u in kkt["u"]]
 
@@ -509,9 +523,9 @@ def lyapunov_monitors(ctx, recipe, kkt, xs, states, fobjs, b):
             s0, s1 = states[k], states[k + 1]
             a0, b0 = A_(s0["x"]) - xs, A_(s0["z"]) - zs
             a1, b1 = A_(s1["x"]) - xs, A_(s1["z"]) - zs
-            lhs = Mn(a1, b1) + Mn(a0 - a1, b0 - b1)
+            lhs = Mn(a1, b1) + Mn(a0 - a1, b0 - b1) + 2.0 * m_f * _sq(a1)
             if lhs > Mn(a0, b0) + tol(Mn(a0, b0)):
-                return {"quantity": "PDHG Fejer monotonicity in the M-metric (alpha=1)", "k": k, "lhs": lhs, "M_before": Mn(a0, b0),
+                return {"quantity": "PDHG Fejer monotonicity in the M-metric (alpha=1), with the 2m|x+-x*|^2 gain", "k": k, "lhs": lhs, "M_before": Mn(a0, b0),
                         "M_after": Mn(a1, b1)}
         ctx.count("monotone:pdhg-fejer-M")
     if alg == "padmm":
@@ -530,6 +544,7 @@ def lyapunov_monitors(ctx, recipe, kkt, xs, states, fobjs, b):
         for k in range(1, len(states) - 1):
             s0, s1 = states[k], states[k + 1]
             diss = nP(A_(s1["x"]) - A_(s0["x"])) + rho * nu * _sq(A_(s1["z"]) - A_(s0["z"])) + rho * _sq(A_(s1["u"]) - A_(s0["u"]))
+            diss += 2.0 * m_f * _sq(A_(s1["x"]) - xs)
             if Psi(s1) + diss > Psi(s0) + tol(Psi(s0)):
                 return {"quantity": "proximal-ADMM Lyapunov function Psi", "k": k, "Psi_before": Psi(s0), "Psi_after": Psi(s1),
                         "dissipation": diss}
@@ -547,6 +562,7 @@ def lyapunov_monitors(ctx, recipe, kkt, xs, states, fobjs, b):
             s0, s1 = states[k], states[k + 1]
             dx = A_(s1["x"]) - A_(s0["x"])
             diss = _sq(dx) / mu - _sq(M @ dx) / nu + (_sq(A_(s1["z"]) - A_(s0["z"])) + _sq(A_(s1["u"]) - A_(s0["u"]))) / nu
+            diss += 2.0 * m_f * _sq(A_(s1["x"]) - xs)
             if V(s1) + diss > V(s0) + tol(V(s0)):
                 return {"quantity": "linearized-ADMM Lyapunov function V", "k": k, "V_before": V(s0), "V_after": V(s1),
                         "dissipation": diss}
